@@ -39,7 +39,11 @@ def main():
             "repo_head": sh(["git", "-C", "/repo", "rev-parse", "--short", "HEAD"]).stdout.strip()}
     try:
         env = dict(os.environ, HOME=home, PYTHONPATH=scratch, PYTHONWARNINGS="ignore", MPLBACKEND="Agg")
-        demo = os.path.join(src, "demo.py")
+        # the demo is run from the same relative place inside the scratch tree (some demos put "their" checkout on sys.path)
+        ddir = os.path.join(scratch, "breakages", "x")
+        os.makedirs(ddir, exist_ok=True)
+        demo = os.path.join(ddir, "demo.py")
+        shutil.copy2(os.path.join(src, "demo.py"), demo)
         c = sh(["/venv/bin/python", demo], env=env, cwd=scratch, timeout=900)
         meta["demo_clean_exit"] = c.returncode
         a = sh(["git", "apply", os.path.join(src, "patch.diff")], cwd=scratch)
